@@ -251,8 +251,8 @@ impl<'a> PrettyPrinter<'a> {
                 // target or condition
                 FlowItem::spaced(self.convert_expr(ctx, expr))
             } else if let Some(args) = child.cast() {
-                // args
-                FlowItem::tight_spaced(self.convert_parenthesized_args(ctx, args))
+                // args, with the content blocks that may follow the parentheses
+                FlowItem::tight_spaced(self.convert_args(ctx, args))
             } else {
                 FlowItem::none()
             }
@@ -322,7 +322,7 @@ impl<'a> PrettyPrinter<'a> {
                 flow.push_doc(self.arena.text("#"), true, false);
                 peek_hash = true;
             } else {
-                let ctx = ctx.with_mode_if(Mode::Code, at_hash);
+                let ctx = ctx.after_hash(at_hash);
                 let item = producer(ctx, child);
                 if let Some(repr) = item.0 {
                     flow.push_doc(repr.doc, repr.space_before, repr.space_after);
